@@ -3,7 +3,7 @@ NOTES = ("Contract-based deductive verification: Verus on functions extracted me
          "Kani/CBMC on the real crates (scratch copy + add-only cfg(kani) overlay). exit 2 = undecided (lost anchor, "
          "timeout, unsupported construct), never a VIOLATION. See DESIGN.md.")
 ENGINES = [
-    {"name": "E1-verus", "path": "engine/rsx.py, engine/verus.py, units/, contracts/", "serves_properties": ["C01", "C03", "C06"],
+    {"name": "E1-verus", "path": "engine/rsx.py, engine/verus.py, units/, contracts/", "serves_properties": ["C01", "C03", "C06", "C16"],
      "kind_free_text": "mechanical extraction + spec splicing -> single-file Verus (z3); unbounded proofs"},
     {"name": "E2-kani", "path": "engine/overlay.py, contracts/*/kani*.rs", "serves_properties": [],
      "kind_free_text": "cargo kani (CBMC) on a scratch copy of the real crates with an add-only cfg(kani) overlay"},
@@ -26,6 +26,14 @@ CHECKS = {
         "note": "Trusted: Verus/z3, assumed spec of <[T]>::swap, vstd multiset lemmas. NOT covered: completeness (n! distinct arrangements), steps 3-5 of the canonicalisation algorithm, Hash N-Degree Quads, issuer, canonical N-Quads escaping.",
         "technique": "deductive verification (Verus requires/ensures/decreases, loop invariant, FnMut call obligations) of mechanically extracted code",
     },
+    "C16": {
+        "engine": "E1-verus",
+        "category": "proof",
+        "text": "For six anchored sites (the five matching iterators' next(), quoted_string) Verus accepts the real function text without a decreases clause on the function - its termination rule rejects any self-recursive exec function lacking one - and discharges the loops' decreases on the remaining input; so call depth does not depend on the number of rejected rows / escaped bytes. Other recursion sites named by the property are not covered.",
+        "design_ref": "DESIGN.md 5 (C16)",
+        "note": "Call depth is the proxy for stack use (frame sizes are not measured). Trusted: Verus termination rule, U-ITER/U-ESC stand-ins. NOT covered: graph_rec (SPARQL), populate_list/mark_list_node (JSON-LD), Turtle pretty printer, parsers.",
+        "technique": "deductive verification (Verus termination obligations: no recursion without decreases; loop decreases) of mechanically extracted code",
+    },
     "C03": {
         "engine": "E1-verus",
         "category": "proof",
@@ -35,4 +43,4 @@ CHECKS = {
         "technique": "deductive verification (Verus pre/postconditions, loop invariants, lemmas) of mechanically extracted code",
     },
 }
-NOT_APPLICABLE = {p: PENDING for p in ["C02", "C04", "C05", "C07", "C08", "C09", "C10", "C11", "C12", "C13", "C14", "C15", "C16", "C17", "C18", "C19", "C20"]}
+NOT_APPLICABLE = {p: PENDING for p in ["C02", "C04", "C05", "C07", "C08", "C09", "C10", "C11", "C12", "C13", "C14", "C15", "C17", "C18", "C19", "C20"]}
